@@ -240,7 +240,8 @@ def c18(tier):
         if fn:      # the same program with every called function declared inline
             isrc = vocab.source(p["body"], fn, inline=fn, ports=True)
             vs += [dict(name="inline" + l, args=[l], src=isrc) for l in ("-O0", "-O1")]
-        cases.append(dict(id=cid, fam="FX", body=p["body"], fnames=fn, io_names=io_names, extra_decl=vocab.PORT_DECLS, variants=vs))
+        # xio: all variants are one source at several levels (or with inline functions): the accesses of protected instructions must agree
+        cases.append(dict(id=cid, fam="FX", body=p["body"], fnames=fn, io_names=io_names, extra_decl=vocab.PORT_DECLS, variants=vs, xio=True))
         bodies[cid] = p["body"]
     for p in fs:
         a, b = sleep_body(p["n"], p["ctx"], True), sleep_body(p["n"], p["ctx"], False)
